@@ -1066,36 +1066,53 @@ def noninteger_subscope(run, count):
              % (tried, differ, other, common.json.dumps(common.jsonable(example))))
 
 
+def merged_variant(v1, v2):
+    """Two option variants together (thorough tier): the later one wins on a clash, engine options are united."""
+    d = copy.deepcopy(v1[1])
+    for k, v in copy.deepcopy(v2[1]).items():
+        if k == "labella" and "labella" in d:
+            d["labella"].update(v)
+        else:
+            d[k] = v
+    return (v1[0], d, v2[2])
+
+
 def explore(run, props):
     prop = sorted(props)[0]
     quick = run.tier == "quick"
     nv = len(VARIANTS)
     count = 0
     cut = False
-    for di, direction in enumerate(DIRECTIONS):
-        for ki, kind in enumerate(KINDS):
-            for si, shape in enumerate(SHAPES):
-                if quick:
-                    # covering design: every variant meets every direction, every scale kind and every shape
-                    picks = sorted({(di + 4 * ki + si) % nv, (3 * di + ki + 5 * si + 1) % nv, (di * 7 + ki * 2 + si * 3 + 2) % nv,
-                                    (5 * di + 3 * ki + 7 * si + 9) % nv, (11 * di + 13 * ki + si + 4) % nv})
-                else:
-                    picks = range(nv)
-                for vi in picks:
-                    one(run, props, make_case(direction, kind, shape, VARIANTS[vi]))
-                    count += 1
+    cells = [(d, k, s) for d in DIRECTIONS for k in KINDS for s in SHAPES]
+    for direction, kind, shape in cells:
+        for v in VARIANTS:
+            one(run, props, make_case(direction, kind, shape, v))
+            count += 1
+        if run.left() < run.budget * 0.35:
+            cut = True
+            break
+    if cut:
+        run.note("enumerated matrix cut by the time budget after %d cases" % count)
+    else:
+        run.exhaustive("S-PIPE matrix: 4 directions x 4 scale kinds x 5 dataset shapes x %d option variants = %d cases, "
+                       "both back-ends" % (nv, count))
+    if not quick and not cut:
+        pairs = 0
+        for i in range(nv):
+            for j in range(nv):
+                if i == j:
+                    continue
+                for direction, kind, shape in cells:
+                    if (DIRECTIONS.index(direction) + KINDS.index(kind) + SHAPES.index(shape) + i + j) % 4:
+                        continue  # a quarter of the cells per ordered pair
+                    one(run, props, make_case(direction, kind, shape, merged_variant(VARIANTS[i], VARIANTS[j])))
+                    pairs += 1
                 if run.left() < run.budget * 0.35:
                     cut = True
                     break
             if cut:
                 break
-        if cut:
-            break
-    if cut:
-        run.note("enumerated matrix cut by the time budget after %d cases" % count)
-    else:
-        run.exhaustive("S-PIPE matrix: 4 directions x 4 scale kinds x 5 dataset shapes x %s of %d option variants = %d cases, "
-                       "both back-ends" % ("5 (covering design)" if quick else "all", nv, count))
+        run.note("ordered pairs of option variants merged: %d cases%s" % (pairs, " (cut by the time budget)" if cut else ""))
     if prop == "C09":
         noninteger_subscope(run, 12 if quick else 60)
     while run.left() > 0:
